@@ -10,7 +10,6 @@ import (
 	"go/token"
 	"os"
 	"path/filepath"
-	"reflect"
 	"sort"
 	"strconv"
 	"strings"
@@ -594,7 +593,7 @@ func (rr *rulesRunner) renderMessage(msg string, m matchData, truncate bool) str
 			// For example, pattern `func $_() $results { $*_ }` may
 			// match a nil *ast.FieldList for $results if executed
 			// against a function with no results.
-			if reflect.ValueOf(n).IsNil() && !gogrep.IsEmptyNodeSlice(n) {
+			if isNilNode(n) && !gogrep.IsEmptyNodeSlice(n) {
 				continue
 			}
 			capture = append(capture, c)
